@@ -111,8 +111,12 @@ func pathKey(p []int) string {
 }
 
 func (r *R) emit(ind int, text string) int {
-	r.lines = append(r.lines, strings.Repeat("    ", ind)+text)
-	return len(r.lines)
+	// a statement may span several physical lines (multi-line text literal): its line is the first
+	parts := strings.Split(text, "\n")
+	r.lines = append(r.lines, strings.Repeat("    ", ind)+parts[0])
+	first := len(r.lines)
+	r.lines = append(r.lines, parts[1:]...)
+	return first
 }
 
 func numText(v any) string {
@@ -223,8 +227,11 @@ func (r *R) stmts(ss []*Stmt, pfx []int, ind int) {
 
 func (r *R) stmt(s *Stmt, p []int, ind int) {
 	for _, pre := range s.Pre {
-		// raw material (comments, blank lines); may contain several physical lines
-		for _, l := range strings.Split(pre, "\n") {
+		// layout material (comments, blank lines); may span several physical lines
+		for i, l := range strings.Split(pre, "\n") {
+			if i == 0 && l != "" {
+				l = strings.Repeat("    ", ind) + l
+			}
 			r.lines = append(r.lines, l)
 		}
 	}
